@@ -1482,10 +1482,18 @@ class MultiTenantPool(FixedPool):
 
         client_id = worker.current_client_id
         assert client_id is not None
+        # The worker applies the invalidation list first thing, whatever
+        # happens to the rest of the call: forget the invalidated tenants
+        # right now (before looking up this tenant), not in the callback
+        # that only runs after a successful sync.
+        invalidation = worker.get_invalidation()
+        worker.flush_invalidation()
         tenant_schema = worker.get_tenant_schema(client_id)
         if tenant_schema is None:
             # make room for the new client in this worker
             worker.maybe_invalidate_last()
+            invalidation += worker.get_invalidation()
+            worker.flush_invalidation()
             to_update = {
                 "user_schema_pickle": user_schema_pickle,
                 "reflection_cache": reflection_cache,
@@ -1545,7 +1553,7 @@ class MultiTenantPool(FixedPool):
             "call_for_client",
             client_id,
             pickled_schema,
-            worker.get_invalidation(),
+            invalidation,
             None,  # forwarded msg is only used in remote compiler server
             method_name,
             dbname,
